@@ -20,7 +20,7 @@ RULE = (
     "re-expression in another unit; after the same category is registered again (override) with another limit "
     "configuration the verdicts follow the definition in force. Registration oracle: an accepted registration has default_unit in units(type), a "
     "default value that satisfies the limits, Scalar(category).IsValid(); an inconsistent one raises and leaves the "
-    "registry unchanged. Results of + and - between objects of the category written in different units (Scalar, list, ndarray) are validated by their amount like objects that were written down. After a unit was used without a category and its default category is re-registered with limits, the category-less forms (Scalar(v,u), Scalar((v,u)), Array, FractionScalar) are validated by the definition in force. Non-trivial = limits present and a value within 3 ulp of a boundary, or an array with a NaN "
+    "registry unchanged. Results of + and - between objects of the category written in different units (Scalar, list, ndarray) are validated by their amount like objects that were written down. After a unit was used without a category and its default category is re-registered with limits, the category-less forms (Scalar(v,u), Scalar((v,u)), Array, FractionScalar) are validated by the definition in force. The verdict belongs to the object: it is the same while a project database that has a category of the same name with contradicting limits is current. Non-trivial = limits present and a value within 3 ulp of a boundary, or an array with a NaN "
     "and an out-of-range element; key = (limit config, unit, container, verdict)."
 )
 ASSUMPTIONS = ["an infinite value whose float conversion to the default unit is NaN (0*inf in the POSC formula) satisfies no limit, exactly as the database conversion says", "NaN inside tuple-of-tuples containers is not asserted (unspecified by the statement)", "the reference uses the same db float conversion as the statement names, so boundary cases are compared exactly"]
@@ -169,6 +169,21 @@ class Checker:
         if raised is not None and why is not None:
             if raised.operator != why[0] or raised.limit_value != why[1] or not _same(raised.value, v):
                 ctx.fail("reported_limit_wrong:%s" % cls, case, "%r: reported value %r %s %r, the violated limit is %r %r for amount %r" % (o, raised.value, raised.operator, raised.limit_value, why[0], why[1], v))
+        # the verdict belongs to the object (the definition it was created under), not to whichever database is current
+        # when it is asked: a project database with a category of the same name and other limits is made current
+        if cfg.get("twin_in_other_db"):
+            o2 = Scalar(x, u, name) if cls == "Scalar" else FractionScalar(FractionValue(number=x), u, name)
+            with env.pushed(cfg["twin_in_other_db"]):
+                got_b = o2.IsValid()
+                try:
+                    o2.CheckValidity()
+                    raised_b = False
+                except QuantityValidationError:
+                    raised_b = True
+            ctx.ev()
+            if got_b != want or raised_b == want:
+                ctx.fail("verdict_depends_on_the_current_database:%s" % cls, case, "%r: IsValid()=%r / CheckValidity %s while a project database (category of the same name, other limits) is current; its own limits %r say %r" % (o2, got_b, "raised" if raised_b else "passed", _lim(cfg), want))
+            ctx.cls("verdict_asked_under_another_current_database")
         if cls == "Scalar":
             ctx.ev()
             try:
@@ -290,6 +305,16 @@ class Checker:
         other = None
         if case.get("other") is not None:
             other = self.register(dict(case["other"], qt=cfg["qt"]), case)
+        if cfg["qt"] == "length" and case["ui"] % 3 == 0:
+            # a project database that knows a category of this very name, with limits that contradict these
+            twin = _ST.get("twin")
+            if twin is None:
+                twin = _ST["twin"] = env.skewed_db()
+            try:
+                twin.AddCategory(cfg["name"], "length", override=True, min_value=1e9, max_value=2e9, default_value=1.5e9, default_unit="m")
+                cfg = dict(cfg, twin_in_other_db=twin)
+            except Exception:
+                pass
         units = db.GetUnits(cfg["qt"])
         u = units[case["ui"] % len(units)]
         w = units[case["wi"] % len(units)]
